@@ -1390,6 +1390,11 @@ def c20(ctx):
             uri = ctx.r.choice(["http://json-schema.org/draft-99/schema#", "urn:unknown", "not a uri", "", "http://json-schema.org/draft-07/schema#/x",
                                 "HTTP://json-schema.org/draft-07/schema#", "http://json-schema.org/draft-07/schema?"])
             want = "unknown"
+            # "equal to a registered id" is up to URI normalisation (RFC 3986: empty fragment/query dropped)
+            from urllib.parse import urlsplit
+            for t2, mid in ids.items():
+                if urlsplit(uri).geturl() == urlsplit(mid).geturl():
+                    want = t2
         else:
             uri = None
             want = "default"
